@@ -5,6 +5,7 @@ import (
 	"os"
 	"testing"
 
+	"github.com/bufbuild/bufverif/internal/evid"
 	"google.golang.org/protobuf/proto"
 )
 
@@ -31,4 +32,23 @@ func TestDbg(t *testing.T) {
 	fmt.Println(proto.Equal(l1.Options, l2.Options))
 	l1.Options, l2.Options = nil, nil
 	fmt.Println(proto.Equal(l1, l2))
+}
+
+// TestMinimizeReplay (development aid): C07_MIN=<replay file> prints a reduced reproduction.
+func TestMinimizeReplay(t *testing.T) {
+	p := os.Getenv("C07_MIN")
+	if p == "" {
+		t.Skip()
+	}
+	os.Setenv("VERIF_REPLAY", p)
+	var c Case
+	if _, err := evid.ReplayCase(&c); err != nil {
+		t.Fatal(err)
+	}
+	v := runOracle(&c)
+	fmt.Printf("key=%s\n", v.Key)
+	m := minimize(&c, v.Key, 6000)
+	c.Source = m
+	v = runOracle(&c)
+	fmt.Printf("==== minimal (%d bytes)\n%s\n---- key=%s\n%.1500s\n", len(m), m, v.Key, v.Msg)
 }
